@@ -68,11 +68,13 @@ def lanewise(cfg, structs, f, n, k, d, opname, prim, unary=False, scalar_left=Fa
     run = 'run O tbl 200 %d%%positive %s' % (f['fid'], args); sh = ty_shape(structs, ret)
     lhs = ('rerase O (%s) (%s)' % (sh, run)) if core.shape_has_hidden(sh) else run
     if cfg == 'libm' and opname in ('div_euclid', 'rem_euclid', 'signum'): return None     # libm builds spell these out; covered by the correspondence run only
-    direct = (not simd) or (opname in SSE_DIRECT) or (cfg.startswith('coresimd') and (opname in UN or opname in BIN or opname in BINM or opname in ('neg', 'min', 'max', 'fract', 'fract_gl', 'clamp', 'powf')))
+    sse_trick = simd and not cfg.startswith('coresimd') and opname in ('floor',)      # lane function defined in coq/theories/FloatTricks.v and proved equal to the primitive there
+    direct = (not simd) or (opname in SSE_DIRECT) or sse_trick or (cfg.startswith('coresimd') and (opname in UN or opname in BIN or opname in BINM or opname in ('neg', 'min', 'max', 'fract', 'fract_gl', 'clamp', 'powf')))
     if opname == 'mul_add' and simd: direct = False
     if direct:
         def lane(i):
             x = [a[i] for a in A]
+            if sse_trick and opname == 'floor': return '(floor_lane O %s)' % x[0]
             if prim == 'RECIP': return op2(k, 'FDiv', '(%s_of_bits O %d)' % (k, 1065353216 if k == 'f32' else 4607182418800017408), x[0])
             if prim and (unary): return op1(k, prim, x[0])
             if opname == 'powf': return op2(k, 'FPowf', x[0], x[1])
@@ -89,7 +91,9 @@ def lanewise(cfg, structs, f, n, k, d, opname, prim, unary=False, scalar_left=Fa
             prim2 = 'FMinSse' if opname == 'min' else 'FMaxSse'
             lanes = [op2(k, prim2, A[0][i], A[1][i]) for i in range(d)]
         else: lanes = [lane(i) for i in range(d)]
-        return {'vars': vs, 'lhs': lhs, 'rhs': 'Ok (%s)' % tree_fill(rt, iter(lanes)), 'spec': 'direct %s' % opname}
+        d = {'vars': vs, 'lhs': lhs, 'rhs': 'Ok (%s)' % tree_fill(rt, iter(lanes)), 'spec': 'direct %s' % opname}
+        if sse_trick: d['pre'] = 'i_1 O U32 INot 2147483648 = Some 2147483647'; d['spec'] = 'lane function FloatTricks.%s_lane (proved equal to the IEEE primitive)' % opname
+        return d
     # lane uniformity: every lane is lane 0 of the same function on splatted operands
     paths = [leaf_path(rt, i) for i in range(d)]
     def splat(t, i):
@@ -146,7 +150,7 @@ def predicate(cfg, structs, f, n, k, d):
     else: return None
     return {'vars': vs, 'lhs': run, 'rhs': rhs, 'spec': 'predicate %s' % name, 'intstd': True}
 
-HDR = core.HDR.replace('Import Base Spec.', 'Import Base Spec Sem.')
+HDR = core.HDR.replace('Import Base Spec.', 'Import Base Spec Sem FloatTricks.')
 
 def run(tier, seed):
     t0 = time.time(); idx, info = flow.prepare()
